@@ -1719,7 +1719,23 @@ func (c *DefaultCtx) Set(key, val string) {
 }
 
 func (c *DefaultCtx) setCanonical(key, val string) {
-	c.fasthttp.Response.Header.SetCanonical(utils.UnsafeBytes(key), utils.UnsafeBytes(val))
+	c.fasthttp.Response.Header.SetCanonical(utils.UnsafeBytes(key), utils.UnsafeBytes(sanitizeHeaderValue(val)))
+}
+
+// sanitizeHeaderValue replaces CR and LF with a space, as fasthttp's ResponseHeader.Set does,
+// so that a value can neither end its header line nor start the body. The setters that take
+// the value as it is (SetCanonical, SetCookie, SetContentType) must be fed through it.
+func sanitizeHeaderValue(val string) string {
+	if strings.IndexByte(val, '\r') == -1 && strings.IndexByte(val, '\n') == -1 {
+		return val
+	}
+	b := []byte(val)
+	for i := range b {
+		if b[i] == '\r' || b[i] == '\n' {
+			b[i] = ' '
+		}
+	}
+	return utils.UnsafeString(b)
 }
 
 // Subdomains returns a string slice of subdomains in the domain name of the request.
